@@ -95,8 +95,11 @@ def main(tier):
         for e in r["errors"]:
             if str(e["event"].get("error", "")).startswith("result differs from the reference"):
                 run.violation("concurrent-result-differs-from-reference-semantics", {"config": cfg, **e})
+            elif str(e.get("sequential", "ok")).startswith("ERR:"):
+                run.violation("concurrent-call-differs-from-the-refusal-of-the-sequential-call", {"config": cfg, **e})
             else:
                 run.violation("concurrent-call-raised-but-sequential-call-succeeds", {"config": cfg, **e})
+        run.count("concurrent_refusals_equal_to_sequential", r.get("refusals_equal_to_sequential", 0))
         if r["sequential_errors"]:
             run.count("sequential_errors_not_judged_here", r["sequential_errors"])
         for k in range(min(r["overlapping_call_pairs"], r["calls"])):
